@@ -4,3 +4,4 @@ import FormakVerif.Model.PyModel
 import FormakVerif.Model.Runtime
 import FormakVerif.Model.Ekf
 import FormakVerif.Model.Validate
+import FormakVerif.Model.Sklearn
